@@ -2,7 +2,8 @@
 R1 adaptedness of every built-in feature in both modes (window domain); R2 only inputs.get(step) reaches the model;
 R3 the last column is a copy of the previous one and the loop covers steps 0..T-2; R4 built-in models read their input only.
 Added after the seeded-defect rounds: R5 FeatureList/ModuleOutput identities; R6 features and the option mixin keep no memoised state; R7 the recurrent input is zero at step 0 and the previous step's output afterwards (facts of C03.R3); concrete derivative classes do not replace the mixin methods; R2/R3 on every path.
-Third round: R1 also: the option mixin's own moneyness / running-maximum methods in both modes (default parameters of the path-dependent Black-Scholes pricers)."""
+Third round: R1 also: the option mixin's own moneyness / running-maximum methods in both modes (default parameters of the path-dependent Black-Scholes pricers).
+Rounds 4-5: R4t built-in models do not look ahead along the time axis; R9 features and containers keep what they are given; public names are the definitions of that name."""
 import ast
 
 import sympy as sp
